@@ -40,39 +40,49 @@ def run(cx):
     rule_scripts(cx, pm)
 
     # ---- C05-SCOPE ---------------------------------------------------------------------------
-    r = cx.rule("C05-SCOPE", "a declaration is global exactly for scope == 'setup' and depth == 0", floor=4)
-    ha = pm.func("_handle_assignment_ast")
-    d = Locals(ha).defs.get("is_global_scope", [])
-    r.check(len(d) == 1 and norm(d[0]) == "scope == 'setup' and depth == 0", "_handle_assignment_ast/is_global_scope", (pm, ha), f"is_global_scope := {norm(d[0]) if d else '?'}")
-    for q, fn in pm.funcs.items():
-        for c in walk_local(fn, include_self=False):
-            if isinstance(c, ast.Call) and call_name(c) == "VarDecl":
-                g = kwarg(c, "global_scope")
-                v = norm(g) if g is not None else "False"
-                ok = v in ("is_global_scope", "False", "scope == 'setup' and depth == 0") or (v == "True" and ("all_new and is_global_scope", True) in lexical_conds(pm, c))
-                r.check(ok, f"{q}/VarDecl.global_scope[{v}]", (pm, c), f"`{stmt_key(c)}`", sample=f"{q}: global_scope={v}")
-    # a hoisted name is recorded as declared on every path: otherwise the next plain assignment in the loop body emits a
-    # second, shadowing declaration and the value no longer persists between loop() passes
-    from ..flow import MustFacts
-
-    class Declared(MustFacts):
-        def gen(self, stmt):
-            out = set()
-            for c in ast.walk(stmt):
-                if isinstance(c, ast.Call) and isinstance(c.func, ast.Attribute) and c.func.attr in ("add", "update") and c.args and norm(c.args[0]) in ("name", "{name}", "[name]", "(name,)"):
-                    out.add("declared:" + norm(c.func.value))
-            return out
-
-    mp = pm.func("_make_promotion_decls")
-    mloc = Locals(mp)
-    dset = [k for k, v in mloc.defs.items() if any(isinstance(d, ast.expr) and "'var_declared'" in norm(d) for d in v)]
-    loops = [n for n in walk_local(mp) if isinstance(n, ast.For) and norm(n.target) == "name"]
-    if len(dset) != 1 or len(loops) != 1:
-        raise AnalysisError("_make_promotion_decls: the declared-set or the loop over promoted names was not recognised")
-    an = Declared()
-    o = an.block(loops[0].body, frozenset())
-    ends = [x for x in (o.fall, o.cont) if x is not None]
-    r.check(bool(ends) and all(("declared:" + dset[0]) in e for e in ends), "_make_promotion_decls/every-hoisted-name-recorded-as-declared", (pm, loops[0]), f"some path through the loop over hoisted names does not add the name to `{dset[0]}` (ctx['var_declared']): a later `name = ...` is then emitted as a new declaration that shadows the hoisted variable")
+    # decided by evaluation: a corpus of scripts is parsed (partial evaluation) and the IR is placed in the block structure the
+    # emitter produces (sa/irscope.py): a variable bound before the main loop is a file-scope variable, nothing is declared
+    # twice in a block, no declaration in setup()/loop() shadows a variable of the script, and every assignment or read
+    # finds its variable in an enclosing scope
+    r = cx.rule("C05-SCOPE", "for a corpus of scripts (typing, tuple-assignment and hoisting scripts; names first bound before the loop, in its blocks, in the loop, in nested blocks, in functions): every name bound at the top level before the main loop is declared at file scope, no block declares a name twice, no declaration inside setup()/loop() shadows a script variable (hoisted names stay declared on every path), and every assignment/read refers to a variable of an enclosing C++ scope", floor=30, exhaustive=True)
+    from .. import irscope
+    from . import c01, c02
+    corpus = dict(c02.FLOW_SCRIPTS)
+    for k_, (pro_, body_, _p) in c01.TUPLE_SCRIPTS.items():
+        corpus["tuple-" + k_] = ("from Reduino.Sensors import Potentiometer\npot = Potentiometer('A0')\n" if "pot." in body_ else "") + pro_ + "while True:\n" + "".join("    " + l_ + "\n" for l_ in body_.splitlines())
+    corpus.update({
+        "hoisted-then-reassigned": "x = 0\nwhile True:\n    if x > 1:\n        y = 1\n    else:\n        y = 2\n    y = y + 1\n    while x < 3:\n        w = 1\n        x = x + 1\n    w = w + 1\n    for i in range(2):\n        v = i\n    v = v + w\n",
+        "bound-in-setup-block-used-in-loop": "x = 0\nif x < 1:\n    mode = 2\nelse:\n    mode = 3\nfor i in range(2):\n    seen = i\nwhile True:\n    x = mode + seen\n",
+        "promoted-global-reassigned-in-loop": "x = 1\nif x > 0:\n    mode = 10\nelse:\n    mode = 20\nfor i in range(3):\n    last = i\nwhile True:\n    mode = mode + 1\n    last = last + 2\n",
+        "promoted-global-reassigned-at-top-level": "x = 1\nif x > 0:\n    mode = 10\nelse:\n    mode = 20\nmode = mode + 5\ntry:\n    q = 1\nexcept Exception:\n    q = 2\nq = q * 2\nwhile True:\n    x = mode + q\n",
+        "counter-persists": "count = 0\nlimit = 3\nwhile True:\n    count = count + 1\n    if count > limit:\n        count = 0\n",
+        "function-local-same-name-as-global": "total = 1\ndef bump(v):\n    total = v + 1\n    return total\nwhile True:\n    total = bump(total)\n",
+        "try-hoist-then-reassigned": "d = 1\nwhile True:\n    try:\n        q = 1\n    except Exception:\n        q = 2\n    q = q + d\n",
+        "nested-hoists": "x = 0\nwhile True:\n    if x > 0:\n        if x > 5:\n            deep = 1\n        else:\n            deep = 2\n        mid = deep\n    else:\n        mid = 0\n    x = mid\n",
+    })
+    import ast as _ast
+    for label, src in corpus.items():
+        try:
+            _it, out = pe.parse_source(src)
+        except dl.Unsupported as e:
+            raise AnalysisError(f"parse() left the evaluable subset on scope script `{label}`: {e}")
+        if out.kind != "return":
+            r.fail(f"scope[{label}]/accepted", (pm, pf), f"the script `{label}` is rejected with {out.value}")
+            continue
+        prog = out.value
+        viol = irscope.check(prog, src)
+        r.check(not viol, f"scope[{label}]/well-scoped", (pm, pf), f"script `{label}`: {'; '.join(viol[:2])}", sample=f"{label}: well scoped")
+        top = []
+        for st in _ast.parse(src).body:
+            if isinstance(st, _ast.While):
+                break
+            if isinstance(st, _ast.Assign):
+                for t in st.targets:
+                    top += [x.id for x in _ast.walk(t) if isinstance(x, _ast.Name)]
+        globs = {d.name for d in prog.global_decls if getattr(d, "global_scope", False)}
+        devices = {n_.name for n_ in prog.setup_body if type(n_).__name__.endswith("Decl") and type(n_).__name__ != "VarDecl"}
+        missing = [n_ for n_ in top if n_ not in globs and n_ not in devices]
+        r.check(not missing, f"scope[{label}]/top-level-names-are-file-scope", (pm, pf), f"script `{label}`: {missing} are bound at the top level before the main loop but not declared at file scope: loop() cannot see them / their value would not persist", sample=f"{label}: {sorted(set(top))} global")
     c03.rule_global_init(cx, "C05-GLOBAL-INIT")
 
     # ---- C05-CONFIG --------------------------------------------------------------------------
@@ -130,6 +140,33 @@ def run(cx):
                 r.check(stop == ["digitalWrite(2, 0)", "digitalWrite(4, 0)", "analogWrite(9, 0)"], f"DCMotor[{label}]/safe-stop-in-setup", (em, em.func("emit")), f"motor start-up writes {stop}")
             if dev == "Servo":
                 r.check("#include <Servo.h>" in res.text and "Servo __servo_dev;" in res.text, f"Servo[{label}]/object-and-header", (em, em.func("emit")), "servo object or header missing")
+    # a name bound to a device more than once, on different pins (before the loop and again at the top of it, or twice at the
+    # top of it): whatever pin loop() drives or reads must have been configured in setup()
+    PINNED = {"Led": ({"pin": 5}, {"pin": 6}), "Button": ({"pin": 5}, {"pin": 6}),
+              "RGBLed": ({"red_pin": 3, "green_pin": 5, "blue_pin": 6}, {"red_pin": 9, "green_pin": 10, "blue_pin": 11}),
+              "DCMotor": ({"in1": 2, "in2": 4, "enable": 9}, {"in1": 7, "in2": 8, "enable": 10})}
+    for dev, (first, second) in PINNED.items():
+        if dev not in HOISTED:
+            continue
+        use = USE[dev][0]
+        if dev == "Button":
+            first, second = dict(first, on_click=None), dict(second, on_click=None)
+        for label, setup, loop in (("rebound-at-top-of-loop", [l2.decl_node(dev, **first)], [l2.decl_node(dev, **second), use]),
+                                   ("bound-twice-at-top-of-loop", [], [l2.decl_node(dev, **first), l2.decl_node(dev, **second), use])):
+            res = pe.emit_program(setup=setup, loop=loop)
+            if res.raised:
+                r.ok(f"{dev}[{label}]: refused")
+                continue
+            try:
+                f = l2.functions_of(res.text, ["setup", "loop"])
+            except AnalysisError:
+                r.ok(f"{dev}[{label}]: not a documented placement for this device")
+                continue
+            sc, lc = flat_calls(f["setup"][0]["body"]), flat_calls(f["loop"][0]["body"])
+            configured = {show(call_args(c)[0]) for c in sc if callee(c) == "pinMode" and call_args(c)}
+            used = {show(call_args(c)[0]) for c in lc if callee(c) in ("digitalWrite", "analogWrite", "digitalRead", "analogRead", "tone", "noTone") and call_args(c)}
+            used = {u for u in used if u.isdigit()}
+            r.check(used <= configured, f"{dev}[{label}]/every-pin-used-in-loop-configured-in-setup", (em, em.func("emit")), f"{dev} {label} (pins {sorted(first.values(), key=str)} then {sorted(second.values(), key=str)}): loop() drives/reads pins {sorted(used)}, setup() configures {sorted(configured)}", sample=f"{dev} {label}: {sorted(used)}")
     for kind in ("parallel", "i2c"):
         res = pe.emit_program(setup=[l2.lcd_decl(kind, True), cls["LCDLine"](name="dev", row=0, text="H_text_text", align="left", clear_row=True)], loop=[])
         sc = flat_calls(l2.functions_of(res.text, ["setup"])["setup"][0]["body"])
@@ -154,22 +191,25 @@ def run(cx):
                     seq.append(f"{conf_name}(pinv)")
         okv = "pinv=pinv+1" in seq and f"{conf_name}(pinv)" in seq[seq.index("pinv=pinv+1"):] and f"{conf_name}(pinv)" in seq[:seq.index("pinv=pinv+1")]
         r.check(okv, f"{dev}[pin-variable-reassigned-between-declarations]/configured-with-current-value", (em, em.func("emit")), f"`pinv=5; a={dev}(pinv); pinv=pinv+1; b={dev}(pinv)`: setup() runs {seq}; each device's pin must be configured with the value the variable has at its declaration (once before and once after the re-assignment)")
+    # the hoisting scans are complete and precede statement emission - by evaluation: several devices declared one after the
+    # other (before the loop behind other statements, and at the top of the loop), each used afterwards; every pin loop()
+    # touches is configured in setup() and nothing is configured in loop()
     ef = em.func("emit")
-    for n in walk_local(ef):
-        if isinstance(n, ast.For) and norm(n.iter) in ("setup_body or []", "loop_body or []"):
-            early = [x for x in walk_local(n) if isinstance(x, (ast.Break, ast.Return))]
-            r.check(not early, f"emit/scan[{norm(n.iter)}]-complete", (em, n), f"the hoisting scan over {norm(n.iter)} can stop early: declarations behind the stopping point are never configured")
-    # pass 1 before pass 2
-    calls = [c for c in walk_local(ef) if isinstance(c, ast.Call) and call_name(c) == "_emit_block"]
-    scans = [n for n in walk_local(ef) if isinstance(n, ast.For) and norm(n.iter) in ("setup_body or []", "loop_body or []")]
-    r.check(len(scans) == 2 and calls and max(s.end_lineno for s in scans) < min(c.lineno for c in calls), "emit/hoisting-scans-before-statement-emission", (em, ef), "the configuration scans must run before the statements are emitted")
-    st_ext = [c for c in walk_local(ef) if isinstance(c, ast.Call) and norm(c.func) == "loop_lines.extend"]
-    for c in st_ext:
-        inner = c.args[0]
-        okl = isinstance(inner, ast.Call) and call_name(inner) == "_emit_block" and norm(kwarg(inner, "in_setup") or ast.Constant(1)) == "False"
-        r.check(okl, "emit/loop-lines-from-_emit_block(in_setup=False)", (em, c), f"`{stmt_key(c)}`")
-    st_ext = [c for c in walk_local(ef) if isinstance(c, ast.Call) and norm(c.func) == "setup_lines.extend"]
-    r.check(len(st_ext) == 1 and norm(kwarg(st_ext[0].args[0], "in_setup") or ast.Constant(0)) == "True" and norm(st_ext[0].args[0].args[0]) == "setup_body or []", "emit/setup-lines-from-_emit_block(setup_body,in_setup=True)", (em, ef), "setup() statements must come from _emit_block(setup_body, in_setup=True)")
+    many = [l2.decl_node("Led", name="l1", pin=3), l2.decl_node("Button", name="b1", pin=4, on_click=None), l2.decl_node("Led", name="l2", pin=5),
+            l2.decl_node("RGBLed", name="r1", red_pin=6, green_pin=9, blue_pin=10), l2.decl_node("Led", name="l3", pin=11), l2.decl_node("Button", name="b2", pin=12, on_click=None)]
+    uses_ = [cls["LedOn"](name="l1"), cls["LedOn"](name="l2"), cls["LedOn"](name="l3"), cls["RGBLedOn"](name="r1", red=1, green=2, blue=3), cls["ButtonPoll"](name="b1"), cls["ButtonPoll"](name="b2")]
+    for label, setup_, loop_ in (("several-devices-before-loop-behind-statements", [S(ms=1)] + many[:3] + [S(ms=2)] + many[3:], uses_),
+                                 ("several-devices-at-top-of-loop", [], many + uses_)):
+        res = pe.emit_program(setup=setup_, loop=loop_)
+        if res.raised:
+            raise AnalysisError(f"emit() raises for {label}")
+        f = l2.functions_of(res.text, ["setup", "loop"])
+        sc, lc = flat_calls(f["setup"][0]["body"]), flat_calls(f["loop"][0]["body"])
+        configured = {show(call_args(c)[0]) for c in sc if callee(c) == "pinMode" and call_args(c)}
+        used = {show(call_args(c)[0]) for c in lc if callee(c) in ("digitalWrite", "analogWrite", "digitalRead") and call_args(c)}
+        used = {u for u in used if u.isdigit()}
+        r.check(used == {"3", "4", "5", "6", "9", "10", "11", "12"} and used <= configured, f"{label}/every-pin-configured-in-setup", (em, em.func("emit")), f"{label}: loop() drives/reads pins {sorted(used, key=int)}; setup() configures {sorted(configured, key=lambda x_: int(x_) if x_.isdigit() else 99)}: a declaration behind the point where a scan stopped is never configured")
+        r.check(not [c for c in lc if callee(c) == "pinMode"], f"{label}/nothing-configured-in-loop", (em, em.func("emit")), "configuration code is emitted into loop()")
 
     # two sensors that share a trigger pin: each still gets its own echo pin configured (before the loop and at the top of it)
     for place in ("before-loop", "top-of-loop"):
@@ -202,7 +242,12 @@ def run(cx):
         lt_ = res.text[res.text.index("void loop()"):] if res.text and "void loop()" in res.text else ""
         r.check(f"  {ct_} acc = {ex_};" in lt_ and "static" not in lt_, f"emit/loop-local[{ct_} = {ex_}]-reinitialised-every-pass", (em, em.func("_emit_block")), f"`acc = {ex_}` at the top of the main loop is emitted as `{next((l_.strip() for l_ in lt_.split(chr(10)) if ' acc =' in l_), '?')}`: it must be a plain local initialised on every loop() pass")
     empty = pe.emit_program(setup=[], loop=[])
-    r.check("// no setup actions" in empty.text and "// no loop actions" in empty.text, "emit/empty-bodies-still-well-formed", (em, ef), "empty sketch shape changed")
+    try:
+        fe_ = l2.functions_of(empty.text, ["setup", "loop"])
+        ok_empty = not empty.raised and len(fe_["setup"]) == 1 and len(fe_["loop"]) == 1 and not flat_calls(fe_["setup"][0]["body"]) and not flat_calls(fe_["loop"][0]["body"])
+    except AnalysisError:
+        ok_empty = False
+    r.check(ok_empty, "emit/empty-bodies-still-well-formed", (em, ef), "an empty program must still give one empty setup() and one empty loop() that compile")
 
 
 
